@@ -156,6 +156,14 @@ def _map_dtype(dt):
 class SymArray(_np.ndarray):
     """object ndarray whose .astype(float/int) keeps symbolic scalars (numpy's own astype would call float() on them)"""
 
+    def __array_wrap__(self, obj, context=None, return_scalar=False):
+        # a plain object ndarray reduces to the contained scalar; a subclass would get a 0-d array back: keep numpy's base behaviour
+        if isinstance(obj, _np.ndarray) and obj.ndim == 0:
+            return obj[()]
+        if isinstance(obj, _np.ndarray) and obj.dtype == object and not isinstance(obj, SymArray):
+            return obj.view(SymArray)
+        return obj
+
     def round(self, decimals=0, out=None):
         if self.dtype != object:
             return _np.ndarray.round(self.view(_np.ndarray), decimals)
